@@ -178,3 +178,157 @@ Example ws_only_text_refuted : rio_text_lit (escape_text [32]) = Some [] /\ rio_
 Proof. vm_compute. split; reflexivity. Qed.
 Example illegal_char_refuted : xml_read_text (escape_text [1]) = None /\ rio_text_lit (escape_text [1]) = Some [1].
 Proof. vm_compute. split; reflexivity. Qed.
+
+(* ------------------------------------------------------------------------------------------- *)
+(* B. the namespace split                                                                       *)
+(* ------------------------------------------------------------------------------------------- *)
+Lemma span_app {A} (f : A -> bool) l : fst (span f l) ++ snd (span f l) = l.
+Proof.
+  induction l as [|x l IH]; [reflexivity|]. simpl.
+  destruct (f x); [|reflexivity]. destruct (span f l) as [a b]. simpl in *. rewrite IH. reflexivity.
+Qed.
+Lemma span_fst_all {A} (f : A -> bool) l : forallb f (fst (span f l)) = true.
+Proof.
+  induction l as [|x l IH]; [reflexivity|]. simpl.
+  destruct (f x) eqn:E; [|reflexivity]. destruct (span f l) as [a b]. simpl in *. rewrite E, IH. reflexivity.
+Qed.
+Lemma span_snd_head {A} (f : A -> bool) l x r : snd (span f l) = x :: r -> f x = false.
+Proof.
+  induction l as [|y l IH]; simpl; [discriminate|].
+  destruct (f y) eqn:E.
+  - destruct (span f l) as [a b]. simpl in *. exact IH.
+  - simpl. intros H. injection H as -> _. exact E.
+Qed.
+Lemma span_all_app {A} (f : A -> bool) a b :
+  forallb f a = true -> span f (a ++ b) = (a ++ fst (span f b), snd (span f b)).
+Proof.
+  induction a as [|x a IH]; simpl.
+  - intros _. destruct (span f b); reflexivity.
+  - intros H. apply andb_true_iff in H as [Hx Ha]. rewrite Hx, (IH Ha). reflexivity.
+Qed.
+Lemma span_snd_nonempty {A} (f : A -> bool) l : existsb (fun x => negb (f x)) l = true -> snd (span f l) <> [].
+Proof.
+  induction l as [|x l IH]; simpl; [discriminate|].
+  destruct (f x) eqn:E; simpl.
+  - intros H. destruct (span f l) as [a b]. simpl in *. auto.
+  - intros _. discriminate.
+Qed.
+Lemma forallb_rev {A} (f : A -> bool) l : forallb f (rev l) = forallb f l.
+Proof.
+  induction l as [|x l IH]; [reflexivity|]. simpl. rewrite forallb_app, IH. simpl. rewrite andb_true_r. apply andb_comm.
+Qed.
+Lemma forallb_span_snd {A} (P f : A -> bool) l : forallb P l = true -> forallb P (snd (span f l)) = true.
+Proof.
+  intros H. rewrite <- (span_app f l), forallb_app in H. apply andb_true_iff in H as [_ H]. exact H.
+Qed.
+
+Lemma name_start_is_name c : is_name_start_char c = true -> is_name_char c = true.
+Proof. unfold is_name_char. intros ->. reflexivity. Qed.
+Lemma brk_not_start c : brk c = true -> nc_start c = false.
+Proof.
+  unfold brk, nc_start. intros H. apply orb_true_iff in H as [H|H].
+  - apply negb_true_iff in H. destruct (is_name_start_char c) eqn:E; [|reflexivity].
+    rewrite (name_start_is_name c E) in H. discriminate.
+  - rewrite H. simpl. apply andb_false_r.
+Qed.
+Lemma not_brk c : negb (brk c) = true -> is_name_char c = true /\ not_colon c = true.
+Proof.
+  unfold brk, not_colon. intros H. apply negb_true_iff, orb_false_iff in H as [H1 H2].
+  apply negb_false_iff in H1. rewrite H1, H2. auto.
+Qed.
+
+(* THEOREM (rio_xml split_iri): the two parts concatenate to the IRI *)
+Theorem split_concat iri : fst (split_iri iri) ++ snd (split_iri iri) = iri.
+Proof.
+  unfold split_iri.
+  pose proof (span_app (fun c => negb (brk c)) (rev iri)) as H1.
+  destruct (span (fun c => negb (brk c)) (rev iri)) as [suf_rev pre_rev]. simpl in H1.
+  destruct pre_rev as [|b pre']; [simpl; apply app_nil_r|].
+  pose proof (span_app (fun c => negb (nc_start c)) (b :: rev suf_rev)) as H2.
+  destruct (span (fun c => negb (nc_start c)) (b :: rev suf_rev)) as [skip loc]. simpl in H2.
+  destruct loc as [|c loc']; [simpl; apply app_nil_r|].
+  cbn [fst snd]. rewrite <- app_assoc, H2.
+  rewrite <- (rev_involutive iri), <- H1, rev_app_distr. simpl. rewrite <- app_assoc. reflexivity.
+Qed.
+
+(* THEOREM: the local part is empty (no split: the formatter then writes "prop:") or an NCName *)
+Theorem split_local iri : snd (split_iri iri) = [] \/ is_ncname (snd (split_iri iri)) = true.
+Proof.
+  unfold split_iri.
+  pose proof (span_fst_all (fun c => negb (brk c)) (rev iri)) as Hall.
+  pose proof (span_snd_head (fun c => negb (brk c)) (rev iri)) as Hhd.
+  destruct (span (fun c => negb (brk c)) (rev iri)) as [suf_rev pre_rev]. simpl in Hall, Hhd.
+  destruct pre_rev as [|b pre']; [left; reflexivity|].
+  specialize (Hhd b pre' eq_refl). apply negb_false_iff in Hhd.
+  assert (Hb : negb (nc_start b) = true) by (rewrite (brk_not_start b Hhd); reflexivity).
+  cbn [span]. rewrite Hb.
+  pose proof (span_snd_head (fun c => negb (nc_start c)) (rev suf_rev)) as Hhd2.
+  pose proof (forallb_span_snd (fun c => negb (brk c)) (fun c => negb (nc_start c)) (rev suf_rev)) as Hsuf.
+  rewrite forallb_rev in Hsuf. specialize (Hsuf Hall).
+  destruct (span (fun c => negb (nc_start c)) (rev suf_rev)) as [skip loc]. simpl in Hhd2, Hsuf.
+  destruct loc as [|c loc']; [left; reflexivity|]. right. cbn [snd].
+  specialize (Hhd2 c loc' eq_refl). apply negb_false_iff in Hhd2.
+  unfold nc_start in Hhd2. apply andb_true_iff in Hhd2 as [Hs Hc].
+  cbn [forallb] in Hsuf. apply andb_true_iff in Hsuf as [_ Hrest].
+  unfold is_ncname, is_name. cbn [forallb]. rewrite Hs. unfold not_colon at 1. rewrite Hc. simpl.
+  assert (forallb is_name_char loc' = true /\ forallb not_colon loc' = true) as [-> ->]; [|reflexivity].
+  clear -Hrest. induction loc' as [|x l IH]; [auto|]. simpl in *.
+  apply andb_true_iff in Hrest as [Hx Hl]. destruct (not_brk x Hx) as [-> ->]. simpl. auto.
+Qed.
+
+Lemma ncname_chars s : is_ncname s = true ->
+  exists c r, s = c :: r /\ nc_start c = true /\ forallb (fun x => negb (brk x)) s = true.
+Proof.
+  unfold is_ncname, is_name. destruct s as [|c r]; [discriminate|]. intros H.
+  apply andb_true_iff in H as [H1 H2]. apply andb_true_iff in H1 as [Hs Hn].
+  cbn [forallb] in H2. apply andb_true_iff in H2 as [Hc Hr].
+  exists c, r. split; [reflexivity|]. split.
+  - unfold nc_start. rewrite Hs. exact Hc.
+  - cbn [forallb]. apply andb_true_iff. split.
+    + unfold brk. rewrite (name_start_is_name c Hs). unfold not_colon in Hc. apply negb_true_iff in Hc. rewrite Hc. reflexivity.
+    + clear -Hn Hr. induction r as [|x r IH]; [reflexivity|]. simpl in *.
+      apply andb_true_iff in Hn as [A B]. apply andb_true_iff in Hr as [C D].
+      rewrite (IH B D), andb_true_r. unfold brk. rewrite A. unfold not_colon in C. apply negb_true_iff in C. rewrite C. reflexivity.
+Qed.
+
+(* THEOREM: when the IRI contains a break character (':' in particular, so every absolute IRI)
+   and the split fails, NO suffix of the IRI is an NCName: "cannot be written as a QName" is exact *)
+Theorem split_complete iri :
+  existsb brk iri = true -> snd (split_iri iri) = [] ->
+  forall a b, iri = a ++ b -> is_ncname b = false.
+Proof.
+  intros Hbrk Hnil a b -> . destruct (is_ncname b) eqn:Enc; [exfalso|reflexivity].
+  destruct (ncname_chars b Enc) as (c & r & -> & Hc & Hall).
+  revert Hnil. unfold split_iri. rewrite rev_app_distr.
+  rewrite (span_all_app (fun x => negb (brk x)) (rev (c :: r)) (rev a)) by (rewrite forallb_rev; exact Hall).
+  assert (Ha : existsb brk a = true).
+  { rewrite existsb_app in Hbrk. apply orb_true_iff in Hbrk as [H|H]; [exact H|].
+    exfalso. clear -H Hall. induction (c :: r) as [|x l IH]; [discriminate|]. simpl in *.
+    apply andb_true_iff in Hall as [A B]. apply orb_true_iff in H as [H|H]; [rewrite H in A; discriminate|auto]. }
+  assert (Hne : snd (span (fun x => negb (brk x)) (rev a)) <> []).
+  { apply span_snd_nonempty. rewrite <- (rev_involutive a) in Ha. 
+    clear -Ha. rewrite existsb_exists in *. destruct Ha as (x & Hin & Hx). exists x. split.
+    - apply in_rev in Hin. rewrite rev_involutive. rewrite rev_involutive in Hin. apply in_rev. rewrite rev_involutive. exact Hin.
+    - rewrite Hx. reflexivity. }
+  destruct (span (fun x => negb (brk x)) (rev a)) as [u pre_rev]. simpl in Hne. cbn [fst snd].
+  destruct pre_rev as [|b0 pre']; [congruence|].
+  pose proof (span_snd_nonempty (fun x => negb (nc_start x)) (b0 :: rev (rev (c :: r) ++ u))) as Hne2.
+  destruct (span (fun x => negb (nc_start x)) (b0 :: rev (rev (c :: r) ++ u))) as [skip loc].
+  simpl in Hne2. destruct loc as [|x loc']; [|discriminate].
+  intros _. apply Hne2; [|reflexivity].
+  rewrite rev_app_distr, rev_involutive. cbn [existsb]. rewrite existsb_app. cbn [existsb].
+  rewrite Hc. simpl. rewrite !orb_true_r. reflexivity.
+Qed.
+
+Lemma has_colon_brk s : has 58 s = true -> existsb brk s = true.
+Proof.
+  unfold has. rewrite !existsb_exists. intros (x & Hin & Hx). exists x. split; [exact Hin|].
+  apply N.eqb_eq in Hx. subst x. reflexivity.
+Qed.
+
+Example split_examples :
+  split_iri [104;116;116;112;58;47;47;101;47;49;97] = ([104;116;116;112;58;47;47;101;47;49], [97])   (* http://e/1a *)
+  /\ split_iri [117;114;110;58;49] = ([117;114;110;58;49], [])                                          (* urn:1 *)
+  /\ split_iri [104;58;97;58;98] = ([104;58;97;58], [98])                                               (* h:a:b *)
+  /\ split_iri [97;98;99] = ([97;98;99], []).                                                           (* abc: no break character *)
+Proof. vm_compute. repeat split; reflexivity. Qed.
